@@ -104,7 +104,10 @@ impl Form {
     }
     fn shapes(self) -> usize {
         match self {
-            Form::TupleLet | Form::NestedTupleLet => 3,
+            Form::TupleLet => 3,
+            Form::NestedTupleLet => 4,
+            // shape 1: the quoted block starts with an expression statement, the binder follows
+            Form::Let => 2,
             _ => 1,
         }
     }
@@ -286,7 +289,14 @@ fn letlike(form: Form, shape: usize, j: usize, b: &str, val: &str, k: Ks) -> (St
                 3.0 * k.k2 + 5.0 * k.k3,
             ),
         },
-        Form::NestedTupleLet => match shape % 3 {
+        Form::NestedTupleLet => match shape % 4 {
+            3 => (
+                // three levels: the temporaries of the two sub-patterns of one level and of the
+                // sub-pattern below them must all be distinct
+                format!("let ((zq_a{j}, (zq_b{j}, {b})), (zq_c{j}, zq_d{j})) = (({k3}, ({k4}, {val})), ({k2}, {k3}))"),
+                format!(" + zq_a{j} * 3.0 + zq_b{j} * 5.0 + zq_c{j} * 7.0 + zq_d{j} * 11.0"),
+                3.0 * k.k3 + 5.0 * k.k4 + 7.0 * k.k2 + 11.0 * k.k3,
+            ),
             0 => (
                 format!("let ((zq_a{j}, {b}), zq_c{j}) = (({k3}, {val}), {k2})"),
                 format!(" + zq_a{j} * 3.0 + zq_c{j} * 5.0"),
@@ -315,9 +325,11 @@ fn letlike(form: Form, shape: usize, j: usize, b: &str, val: &str, k: Ks) -> (St
 /// number of `__dtN` temporaries the staging pass generates for one macro of this form
 fn temporaries(form: Form, shape: usize) -> usize {
     match form {
-        Form::NestedTupleLet => {
-            if shape % 3 == 1 { 2 } else { 1 }
-        }
+        Form::NestedTupleLet => match shape % 4 {
+            1 => 2,
+            3 => 3,
+            _ => 1,
+        },
         Form::LetOverNested => 1,
         _ => 0,
     }
@@ -347,30 +359,32 @@ fn down_body(form: Form, shape: usize, pos: Pos, j: usize, b: &str, k: Ks) -> (S
     let kk = num(k.k);
     let e = "$zq_e";
     let pos = if pos == Pos::Unrelated { Pos::Body } else { pos };
+    // an expression statement before the binder: the block's first node is not the `let`
+    let lead = if form == Form::Let && shape % 2 == 1 { "zq_nop()\n     " } else { "" };
     match form {
         Form::Let | Form::TupleLet | Form::NestedTupleLet | Form::LetOverNested => match pos {
             Pos::Body => {
                 let (bind, ex, xv) = letlike(form, shape, j, b, &kk, k);
-                (format!("{bind}\n     {e} + {b}{ex}"), Lin { a: 1.0, c: k.k + xv })
+                (format!("{lead}{bind}\n     {e} + {b}{ex}"), Lin { a: 1.0, c: k.k + xv })
             }
             Pos::Value => {
                 let (bind, ex, xv) = letlike(form, shape, j, b, &format!("{e} + {kk}"), k);
-                (format!("{bind}\n     {b} * 2.0{ex}"), Lin { a: 2.0, c: 2.0 * k.k + xv })
+                (format!("{lead}{bind}\n     {b} * 2.0{ex}"), Lin { a: 2.0, c: 2.0 * k.k + xv })
             }
             Pos::Before => {
                 let (bind, ex, xv) = letlike(form, shape, j, b, &kk, k);
                 (
-                    format!("let zq_y{j} = {{ {bind}\n                 {b} * 2.0{ex} }}\n     zq_y{j} + {e}"),
+                    format!("let zq_y{j} = {{ {lead}{bind}\n                 {b} * 2.0{ex} }}\n     zq_y{j} + {e}"),
                     Lin { a: 1.0, c: 2.0 * k.k + xv },
                 )
             }
             Pos::After => {
                 let (bind, ex, xv) = letlike(form, shape, j, b, &kk, k);
-                (format!("let zq_y{j} = {e}\n     {bind}\n     zq_y{j} + {b} * 2.0{ex}"), Lin { a: 1.0, c: 2.0 * k.k + xv })
+                (format!("{lead}let zq_y{j} = {e}\n     {bind}\n     zq_y{j} + {b} * 2.0{ex}"), Lin { a: 1.0, c: 2.0 * k.k + xv })
             }
             Pos::Surrounding => {
                 let (bind, ex, xv) = letlike(form, shape, j, b, &kk, k);
-                (format!("{bind}\n     {b} * 2.0{ex} + {e}"), Lin { a: 1.0, c: 2.0 * k.k + xv })
+                (format!("{lead}{bind}\n     {b} * 2.0{ex} + {e}"), Lin { a: 1.0, c: 2.0 * k.k + xv })
             }
             Pos::Unrelated => unreachable!(),
         },
@@ -742,7 +756,8 @@ fn build_down(spec: &DownSpec, rng: &mut Rng) -> HCase {
     }
     let main = wrap_site(spec.site, &local, &expr);
     let head = if spec.form == Form::Match { "type ZqOpt = ZqSom(float) | ZqNon\n" } else { "" };
-    let mk = |d: &str| format!("{head}#stage(macro)\n{d}#stage(main)\n{globals}{main}");
+    let nop = if spec.form == Form::Let && spec.shape % 2 == 1 { "#stage(main)\nfn zq_nop(){\n  let zq_u = 0.0\n}\n" } else { "" };
+    let mk = |d: &str| format!("{head}{nop}#stage(macro)\n{d}#stage(main)\n{globals}{main}");
     HCase {
         colliding: mk(&defs[0]),
         renamed: mk(&defs[1]),
@@ -917,7 +932,7 @@ fn generate_case(idx: usize, rng: &mut Rng, all: &[Combo], qs: (bool, bool)) -> 
         build_down(
             &DownSpec {
                 form,
-                shape: rng.below(3),
+                shape: rng.below(4),
                 pos,
                 src,
                 ukind,
@@ -939,7 +954,7 @@ fn generate_case(idx: usize, rng: &mut Rng, all: &[Combo], qs: (bool, bool)) -> 
         build_up(
             &UpSpec {
                 form,
-                shape: rng.below(3),
+                shape: rng.below(4),
                 uform,
                 upos,
                 via: *rng.pick(&[Via::Hof, Via::Helper]),
